@@ -307,6 +307,23 @@ def _specs(ctx, gen, per):
     return specs
 
 
+def gen(ctx):
+    """C19 for the code of this run: C19_exact / C19_contiguous instantiated with the composed encoder of the
+    regenerated tables (tools/templates/OblC19.v)"""
+    import gen as G
+    g = G.ensure_gen()
+    if not g["ok"]:
+        ctx.extra_obligations.append({"name": "translation of nmea2000/pgns.py + canboat.json", "ok": False,
+                                      "detail": g.get("refused") or g.get("error")})
+        ctx.hints.append({"kind": "translator", "detail": g.get("refused") or g.get("error")})
+        return
+    ok, out = G.compile_template("OblC19")
+    for nm in G.theorem_names("OblC19"):
+        ctx.extra_obligations.append({"name": f"OblC19.v:{nm}", "ok": ok, "detail": out[-800:] if not ok else ""})
+    if not ok:
+        ctx.hints.append({"kind": "tables", "diag": "OblC19.v: " + " ".join(out.split())[-800:]})
+
+
 def correspond(ctx):
     gen = Gen()
     specs = _specs(ctx, gen, ctx.n(45, 2500))
